@@ -127,7 +127,9 @@ func genC03a(t *rapid.T) clCase {
 	c := clCase{Flavor: "C03", MaxSeg: rapid.SampledFrom([]int64{1, 64, 150, 150, 300, 300, 1024}).Draw(t, "maxseg")}
 	n := rapid.IntRange(2, 60).Draw(t, "nops")
 	for i := 0; i < n; i++ {
-		switch rapid.SampledFrom([]string{"append", "append", "append", "sethw", "sethw", "sethw", "newreader", "newreader", "read", "read", "read", "read", "read", "readonly"}).Draw(t, "op") {
+		switch rapid.SampledFrom([]string{"append", "append", "append", "sethw", "sethw", "sethw", "newreader", "newreader", "read", "read", "read", "read", "read", "readonly", "parkro"}).Draw(t, "op") {
+		case "parkro":
+			c.Ops = append(c.Ops, clOp{Op: "parkro"})
 		case "append":
 			b := genBatch(t, false, 4)
 			for j := range b {
@@ -223,6 +225,65 @@ func c03Hook(readersP *[]*c03Reader, ntP *bool, o *vfutil.Obs) func(x *clExec, o
 				return vfutil.Failf("C03/hw-decreased", "step %d: HW went from %d to %d", x.step, before, after), true
 			}
 			return nil, true
+		case "parkro":
+			// a committed reader that has caught up with the HW is blocked in
+			// ReadMessage while the log is switched to read-only: it must end only
+			// if nothing uncommitted remains
+			if x.m.Readonly {
+				return nil, true
+			}
+			r, err := x.l.NewReader(x.m.HW+1, false)
+			if err != nil {
+				return vfutil.Failf("C03/reader-open-error", "step %d: NewReader(%d,committed): %v", x.step, x.m.HW+1, err), true
+			}
+			ctx, cancel := context.WithTimeout(context.Background(), 20*time.Second)
+			type res struct {
+				off int64
+				err error
+			}
+			done := make(chan res, 1)
+			go func() {
+				_, off, _, _, err := r.ReadMessage(ctx, make([]byte, 28))
+				done <- res{off, err}
+			}()
+			// wait until it is parked
+			parked := false
+			for i := 0; i < 20000 && !parked; i++ {
+				x.l.mu.RLock()
+				parked = len(x.l.hwWaiters) > 0
+				x.l.mu.RUnlock()
+				if !parked {
+					time.Sleep(50 * time.Microsecond)
+				}
+			}
+			x.l.SetReadonly(true)
+			uncommitted := x.m.HW < x.m.newest()
+			var f *vfutil.Failure
+			if parked && uncommitted {
+				o.Label("readonly-while-reader-parked-below-log-end")
+				select {
+				case g := <-done:
+					if g.err == nil {
+						f = vfutil.Failf("C03/delivered-wrong/above-hw", "step %d: parked reader delivered offset %d with hw %d", x.step, g.off, x.m.HW)
+					} else if pkgErrors.Cause(g.err) == ErrCommitLogReadonly {
+						f = vfutil.Failf("C03/ended-instead-of-waiting", "step %d: a reader parked at hw %d was told the read-only log has ended although the log end is %d", x.step, x.m.HW, x.m.newest())
+					}
+				case <-time.After(3 * time.Millisecond):
+				}
+			} else if parked {
+				o.Label("readonly-while-reader-parked-at-log-end")
+				select {
+				case g := <-done:
+					if g.err == nil || pkgErrors.Cause(g.err) != ErrCommitLogReadonly {
+						f = vfutil.Failf("C03/readonly-end", "step %d: reader parked at the end of the log (hw %d) got offset %d, %v when the log became read-only", x.step, x.m.HW, g.off, g.err)
+					}
+				case <-time.After(20 * time.Second):
+					f = vfutil.Failf("C03/readonly-end/bounded-liveness(20s)", "step %d: reader parked at the end of the log (hw %d) was not released when the log became read-only", x.step, x.m.HW)
+				}
+			}
+			cancel()
+			x.l.SetReadonly(false)
+			return f, true
 		case "newreader":
 			start, cls := x.startFor(op.Cls, op.Sel)
 			if start < 0 {
